@@ -30,6 +30,14 @@ let run (c : s list) : s option =
      | A "from_bytes" :: d :: _ -> Some (e_outcome e_bdd (from_bytes_m (Ops_serial.bytes_of_string (d_hex d))))
      | A "eval_expr_string" :: names :: x :: _ ->
        Some (Ops_expr.with_vs names (fun ns -> e_outcome e_bdd (eval_expr_string ns (Ops_expr.d_str x))))
+     | A "vs_assignment" :: spec :: _ ->
+       Some (Ops_varset.with_set spec (fun vs ->
+           L (A "L" :: List.mapi (fun i nm -> L [A "P"; A (string_of_int i); Ops_dot.e_name nm]) (variable_names vs))))
+     | A "vs_make3" :: ns :: _ ->
+       Some (match make_variables builder_new (Ops_dot.d_names ns) with
+           | Ok (bl, ids) -> L [A "P"; e_list e_n ids; e_list Ops_dot.e_name (variable_names (build bl))]
+           | Panic -> A "PANIC"
+           | OutOfFuel -> A "FUEL")
      (* (val_hist start (L op ...) x): the vector after the history, the value read back at x, num_vars *)
      | A "val_hist" :: start :: ops :: x :: _ ->
        Some (match val_run (d_val_start start) (d_list d_val_op ops) with
